@@ -38,7 +38,7 @@ fired = [p for p, rc, l in ev.get("results", []) if rc == 1]
 errs = [p for p, rc, l in ev.get("results", []) if rc not in (0, 1)]
 first_fired, first_errs = fired, errs
 try:
-    _files = {"C": "round2_eval.json", "D": "round2_eval.json", "E": "round3_eval.json", "F": "round3_eval.json", "G": "round4_eval.json", "H": "round4_eval.json", "I": "round5_eval.json", "J": "round5_eval.json"}
+    _files = {"C": "round2_eval.json", "D": "round2_eval.json", "E": "round3_eval.json", "F": "round3_eval.json", "G": "round4_eval.json", "H": "round4_eval.json", "I": "round5_eval.json", "J": "round5_eval.json", "K": "round6_eval.json", "L": "round6_eval.json"}
     _first = json.load(open("/verif/tools/dev/" + _files[var])).get("%s-%s" % (pid, var)) if var in _files else None
     if _first and os.environ.get("SEED_ROOT"):
         first_fired, first_errs = _first["fired"], _first["errors"]
